@@ -25,6 +25,10 @@ func (s *LookupJoin) Run(ctx ExecutionContext, produce ProduceFn, metaSend MetaS
 	if err := s.source.Run(ctx, func(produceCtx ProduceContext, sourceRecord Record) error {
 		ctx := ctx.WithRecord(sourceRecord)
 
+		// A retracted source record undoes what its addition produced. The joined stream may contain retractions itself,
+		// so its records have to be undone last to first, otherwise a row would be retracted which is already gone.
+		var toUndo []Record
+
 		if err := s.joined.Run(ctx, func(produceCtx ProduceContext, joinedRecord Record) error {
 			outputValues := make([]octosql.Value, len(sourceRecord.Values)+len(joinedRecord.Values))
 
@@ -32,6 +36,11 @@ func (s *LookupJoin) Run(ctx ExecutionContext, produce ProduceFn, metaSend MetaS
 			copy(outputValues[len(sourceRecord.Values):], joinedRecord.Values)
 
 			retraction := (sourceRecord.Retraction || joinedRecord.Retraction) && !(sourceRecord.Retraction && joinedRecord.Retraction)
+
+			if sourceRecord.Retraction {
+				toUndo = append(toUndo, NewRecord(outputValues, retraction, sourceRecord.EventTime))
+				return nil
+			}
 
 			if err := produce(ProduceFromExecutionContext(ctx), NewRecord(outputValues, retraction, sourceRecord.EventTime)); err != nil {
 				return fmt.Errorf("couldn't produce: %w", err)
@@ -43,6 +52,12 @@ func (s *LookupJoin) Run(ctx ExecutionContext, produce ProduceFn, metaSend MetaS
 			return nil
 		}); err != nil {
 			return fmt.Errorf("couldn't run joined stream: %w", err)
+		}
+
+		for i := len(toUndo) - 1; i >= 0; i-- {
+			if err := produce(ProduceFromExecutionContext(ctx), toUndo[i]); err != nil {
+				return fmt.Errorf("couldn't produce: %w", err)
+			}
 		}
 
 		return nil
